@@ -29,4 +29,12 @@ def parseRun (body : String) : String :=
     | _ => "bad-kind"
   | _ => "bad-case"
 
+/-- `parse2 <sig>;<kind1>;<text1>;<kind2>;<text2>`: two texts parsed one after the other in one thread; asked is the outcome of
+the second, which must not depend on the first (the parser keeps no state between calls, and the printed form of a result
+does not depend on what the slot table held before) — so the model parses the second text from the empty table -/
+def parse2Run (body : String) : String :=
+  match body.splitOn ";" with
+  | [sigS, _, _, kind, cps] => parseRun (sigS ++ ";" ++ kind ++ ";" ++ cps)
+  | _ => "bad-case"
+
 end SV.Drv
